@@ -2,7 +2,7 @@
 (* The expensive half of the curve validation (run once per check, not by every generator):
    the number of solutions of the curve equation is counted by exhaustion for the 8-bit curves and
    the walk 0*T, 1*T, ... is shown to visit exactly those points, i.e. GroupSeq really is the whole group. *)
-EXTENDS EcCurves
+EXTENDS EcCurvesX
 ASSUME \A i \in 1..Len(Curves8) : LET c == Curves8[i]  s == GroupSeq(c) IN
           /\ Cardinality(AffinePoints(c)) + 1 = Order(c)
           /\ { s[j] : j \in 1..Len(s) } = AffinePoints(c) \cup { Inf }
@@ -10,4 +10,10 @@ ASSUME \A i \in 1..Len(Curves8) : LET c == Curves8[i]  s == GroupSeq(c) IN
 \* for every multiple of every point of the 8-bit curves in EcGenPairs (Heavy) and along the walks of EcGenWalk
 ASSUME \A i \in 1..Len(AllCurves) : \A k \in 0..40 :
           Mul(AllCurves[i], k, T(AllCurves[i])) = MulSlow(AllCurves[i], k, T(AllCurves[i]))
+\* the same two facts for the special-shape curves of EcCurvesX
+ASSUME \A i \in 1..Len(CurvesX) : LET c == CurvesX[i]  s == GroupSeq(c) IN
+          /\ Cardinality(AffinePoints(c)) + 1 = Order(c)
+          /\ { s[j] : j \in 1..Len(s) } = AffinePoints(c) \cup { Inf }
+ASSUME \A i \in 1..Len(CurvesX) : \A k \in 0..40 :
+          Mul(CurvesX[i], k, T(CurvesX[i])) = MulSlow(CurvesX[i], k, T(CurvesX[i]))
 =============================================================================
